@@ -23,6 +23,7 @@ DESIGN_REF = "DESIGN.md section 6 C12"
 
 ACTIONS = ["SkipDelim", "OpenQuote", "CloseQuote", "OtherQuoteLiteral", "EscapedDelimOrQuote", "Plain", "EndToken", "Finish"]
 SQ, DQ, BS = 39, 34, 92
+SAMPLE_INPUTS = {tuple(ord(c) for c in s) for s in ('a\\ b', '"a \'b', '"\\"a')}
 
 
 def harness(ctx):
@@ -105,7 +106,7 @@ def exhaustive(ctx, exe):
         s = r["s"]
         if SQ in s or DQ in s or BS in s or len(r["split"]) >= 2:
             stats["nontrivial"] += 1
-        if stats["n"] in (7, 5000, 20011, 40000) or (BS in s and DQ in s and len(r["split"]) == 2 and len(ctx.cov["samples"]) < 6):
+        if tuple(s) in SAMPLE_INPUTS:        # chosen by content, so the evidence does not depend on TLC's emission order
             ctx.sample({"delims": txt(r["d"]) if r["d"] else "(white space)", "input": txt(s), "split": [txt(t) for t in r["split"]],
                         "tok": [txt(t) for t in r["tok"]], "num_words": r["nw"], "words": [txt(t) for t in r["words"]], "pword_offsets": r["pw"]})
         cs.add(mk_case(stats["n"], r))
@@ -215,6 +216,7 @@ def run(ctx):
     exe = harness(ctx)
     exhaustive(ctx, exe)
     long_inputs(ctx, exe)
+    ctx.cov["samples"].sort(key=lambda s: json.dumps(s, sort_keys=True))
     ctx.cov["exhaustive"] = True
     ctx.cov["rule"] = ("every input string up to the length bound over the 7-character alphabet x 3 delimiter sets is scanned by TLC and its "
                        "expected outputs are compared with split, tok, num_words/get_word/get_pword and join of the implementation; a case is "
